@@ -7,16 +7,18 @@ from common import LEAN_DIR, VERIF
 
 # property -> bridge modules ; function names are only for messages
 BRIDGES = {
-    "C01": ["Barril.Bridge.Posc", "Barril.Bridge.PoscTable", "Barril.Bridge.Conv"],
-    "C02": ["Barril.Bridge.Conv"],
+    "C01": ["Barril.Bridge.Posc", "Barril.Bridge.PoscTable", "Barril.Bridge.Conv", "Barril.Bridge.Info"],
+    "C02": ["Barril.Bridge.Conv", "Barril.Bridge.Mgr2"],
     "C03": ["Barril.Bridge.Alg"],
     "C04": ["Barril.Bridge.Alg"],
+    "C05": ["Barril.Bridge.Info"],
     "C08": ["Barril.Bridge.Cmp"],
-    "C11": ["Barril.Bridge.Fixed"],
+    "C11": ["Barril.Bridge.Fixed", "Barril.Bridge.Curve"],
     "C12": ["Barril.Bridge.Valid", "Barril.Bridge.Array"],
-    "C17": ["Barril.Bridge.Mgr"],
-    "C18": ["Barril.Bridge.Frac"],
-    "C20": ["Barril.Bridge.Str"],
+    "C16": ["Barril.Bridge.Info"],
+    "C17": ["Barril.Bridge.Mgr", "Barril.Bridge.Mgr2"],
+    "C18": ["Barril.Bridge.Frac", "Barril.Bridge.FV"],
+    "C20": ["Barril.Bridge.Str", "Barril.Bridge.Pow"],
 }
 
 GENERATED_FROM = {
@@ -25,6 +27,8 @@ GENERATED_FROM = {
     "Barril.Bridge.Alg": ["barril/units/unit_database.py:UnitDatabase._ConvertMatchingExp"],
     "Barril.Bridge.Valid": ["barril/units/_quantity.py:Quantity.CheckValue"],
     "Barril.Bridge.Conv": ["barril/units/unit_database.py:UnitDatabase.Convert"],
+    "Barril.Bridge.Info": ["barril/units/unit_database.py:UnitDatabase.GetInfo",
+                           "barril/units/unit_database.py:FixUnitIfIsLegacy"],
     "Barril.Bridge.Cmp": ["barril/units/_scalar.py:Scalar._GetValuesToCompare", "barril/units/_scalar.py:Scalar.__lt__",
                           "barril/units/_scalar.py:Scalar.__le__", "barril/units/_scalar.py:Scalar.__gt__",
                           "barril/units/_scalar.py:Scalar.__ge__"],
@@ -36,6 +40,19 @@ GENERATED_FROM = {
                           "barril/units/unit_system_manager.py:UnitSystemManager.RemoveUnitSystem"],
     "Barril.Bridge.Str": ["barril/units/_quantity.py:Quantity._MakeStr",
                           "barril/units/_quantity.py:Quantity._CreateUnitsWithJoinedExponentsString"],
+    "Barril.Bridge.FV": ["barril/basic/fraction/_fraction_value.py:FractionValue.__float__",
+                         "barril/basic/fraction/_fraction_value.py:FractionValue.__lt__",
+                         "barril/basic/fraction/_fraction_value.py:FractionValue.__le__",
+                         "barril/basic/fraction/_fraction_value.py:FractionValue.__gt__",
+                         "barril/basic/fraction/_fraction_value.py:FractionValue.__ge__",
+                         "barril/basic/fraction/_fraction_value.py:FractionValue.__eq__",
+                         "barril/units/_fraction_scalar.py:FractionScalar.ConvertFractionValue"],
+    "Barril.Bridge.Curve": ["barril/curve/curve.py:Curve._CheckImageAndDomainLength", "barril/curve/curve.py:Curve.__init__",
+                            "barril/curve/curve.py:Curve.SetImage", "barril/curve/curve.py:Curve.SetDomain"],
+    "Barril.Bridge.Pow": ["barril/units/_quantity.py:Quantity.__pow__", "barril/units/_scalar.py:Scalar.__pow__"],
+    "Barril.Bridge.Mgr2": ["barril/units/unit_system_manager.py:UnitSystemManager.ConvertToCurrent",
+                           "barril/units/unit_system_manager.py:UnitSystemManager.SetCurrent",
+                           "barril/units/unit_system_manager.py:UnitSystemManager.SetTemplateUnitSystemByUnitsMapping"],
     "Barril.Bridge.Frac": ["barril/basic/fraction/_fraction.py:Fraction.__old_cmp__"],
 }
 
